@@ -6,8 +6,8 @@
 EXTENDS LdrOps, Json
 
 CONSTANTS MaxDepth, MaxRows, MaxImgs, SmallInit
-VARIABLES L, T, depth, hist, start
-vars == <<L, T, depth, hist, start>>
+VARIABLES L, T, S, depth, hist, start
+vars == <<L, T, S, depth, hist, start>>
 
 VPat(i) == CASE i % 3 = 0 -> Null [] i % 3 = 1 -> 1 [] OTHER -> 2
 SPat(i) == CASE i % 4 = 0 -> Null [] i % 4 = 1 -> 1 [] i % 4 = 2 -> 2 [] OTHER -> 1
@@ -41,6 +41,7 @@ Ops(l) ==
        (IF l.kind = "batch" /\ l.bin = 1 /\ Len(l.imgs) < MaxImgs THEN {[name |-> "add_tomogram"]} ELSE {})
   \cup {[name |-> "derive", how |-> h] : h \in Hows(l)}
   \cup (IF l.bin = 1 /\ NRows(l.tab) > 0 THEN {[name |-> "observe", via |-> v] : v \in Vias} ELSE {})
+  \cup (IF l.bin = 1 THEN {[name |-> "fork", how |-> h] : h \in {"copy", "replace_order", "binning1", "reshape"}} ELSE {})
   \cup (IF l.bin = 1 /\ NRows(l.tab) > 0
         THEN {[name |-> "groupby", col |-> c, gop |-> g] : c \in {"k", "s"} \cup (IF l.kind = "batch" THEN {"img"} ELSE {}), g \in GOps}
         ELSE {})
@@ -52,15 +53,17 @@ SmallLoaders == {Loader("batch", Table(ColsB, <<RowB(1, q[1], 0), RowB(2, q[2], 
    must skip an id that is in use *)
 GapLoaders == {Loader("batch", Table(ColsB, <<RowB(3, q[3], 1), RowB(4, q[4], 1)>>), <<1>>, -1, 1) : q \in KeyFamilies}
 SmallLoadersAll == SmallLoaders \cup GapLoaders
-Init == /\ L \in (IF SmallInit THEN SmallLoadersAll ELSE Batch2 \cup Batch21 \cup Single3 \cup Empty) /\ T \in Spare
+Init == /\ S = NoLdr /\ L \in (IF SmallInit THEN SmallLoadersAll ELSE Batch2 \cup Batch21 \cup Single3 \cup Empty) /\ T \in Spare
         /\ depth = 0 /\ hist = <<>> /\ start = [L |-> L, T |-> T]
 Apply(op) == \E r \in NextRes(op, L, T) :
                 /\ depth < MaxDepth /\ L' = r /\ NRows(r.tab) <= MaxRows
+                /\ S' = IF op.name = "fork" THEN L ELSE S          \* the object left behind by a fork stays alive, unchanged
                 /\ depth' = depth + 1 /\ hist' = Append(hist, op) /\ UNCHANGED <<T, start>>
 DoApply == \E op \in Ops(L) : Apply(op)
-Next == DoApply
+Swap == /\ S # NoLdr /\ depth < MaxDepth /\ L' = S /\ S' = L /\ depth' = depth + 1 /\ hist' = Append(hist, [name |-> "swap"]) /\ UNCHANGED <<T, start>>
+Next == DoApply \/ Swap
 Spec == Init /\ [][Next]_vars
-View == <<L, T, depth, start>>
+View == <<L, T, S, depth, start>>
 
 (* ------------------------------------------------------------ properties *)
 (* every row keeps the image it was registered with: uid 1,2 -> img 0; 3,4 -> img 1; 5,6 -> added ids *)
@@ -73,6 +76,11 @@ WellFormedL == WellFormed(L.tab)
 
 EmitProgram == depth = MaxDepth => PrintT(ToJson([init |-> start, prog |-> hist]))
 EmitStep == PrintT(ToJson([L |-> L, T |-> T, op |-> hist'[Len(hist')]]))
+(* fork programmes: fork (or fork + swap), then one operation on the receiver; judged on both objects *)
+ForkShape == CASE depth = 0 -> hist'[1].name = "fork"
+               [] depth = 1 -> hist'[2].name \in {"swap", "add_tomogram", "derive"}
+               [] OTHER -> hist'[depth + 1].name \in {"add_tomogram", "observe"}
+EmitFork == ForkShape /\ (depth' = MaxDepth => PrintT(ToJson([init |-> start, prog |-> hist'])))
 (* depth-2 emission restricted to the dangerous states: interleaved image ids *)
 EmitStepInterleaved == (depth = 0 \/ Interleaved(L)) => EmitStep
 =============================================================================
